@@ -27,6 +27,12 @@ Lemma go_S f (inp out : list Z) i k :
   else (i, out).
 Proof. reflexivity. Qed.
 
+(* Everything below holds for ANY translated program that binds these names to these function terms: the
+   compactindexsized package, and the deprecated packages wherever their source is textually the same function. *)
+Section Generic.
+Variable prog : program.
+Hypothesis prog_eytzinger : plookup "eytzinger" prog = Some fn_eytzinger.
+
 Lemma ey_body_spec ext : forall f inp out i k,
   (1 <= k)%nat -> List.length out = List.length inp ->
   Z.of_nat (List.length inp) < 2305843009213693952 ->
@@ -110,3 +116,4 @@ Proof.
   rewrite inorder_root_length; [lia|].
   apply Nat.lt_le_trans with (2 ^ f)%nat; [exact Hf|]. apply Nat.pow_le_mono_r; lia.
 Qed.
+End Generic.
